@@ -69,10 +69,17 @@ class ProgRun:
         self.stats = stats
         self.B = progen.build(self.prog)
         doms = [DomainSpec(d["name"], edge=d["edge"], async_reset=d["async_reset"], reset_less=d["reset_less"])
-                for d in self.prog["domains"]]
+                for d in self.prog["domains"] if not d.get("shadow_of")]
         self.act = {d["name"]: (1 if d["edge"] == "pos" else 0) for d in self.prog["domains"]}
+        # domains that a module defines for itself (shadowing an outer one of the same name): their clock / reset signals are
+        # extra lines of the bus
+        extra = {}
+        for key, cd in self.B.shadow_cds.items():
+            extra[key + ".clk"] = cd.clk
+            if cd.rst is not None:
+                extra[key + ".rst"] = cd.rst
         self.run = ManualRun(self.B.top, doms, sched_mode=case["sched"]["mode"], sched_seed=case["sched"]["seed"],
-                             capture_stdout=capture_stdout)
+                             capture_stdout=capture_stdout, extra_lines=extra or None)
         self.dig = Digest()
 
     def execute(self, hook=None, on_exception=None, rerun=False):
@@ -209,7 +216,7 @@ def count_features(prog):
     import json
     txt = json.dumps(prog)
     feats = {}
-    for key, tag in (('_multi"', "multi_domain_inserter"), ('"inner"', "nested_fsm"), ('"abort"', "aborted_elif_branch"), ('"refused"', "refused_statement"), ('"clk"', "clock_signal_read"), ('"rst"', "reset_signal_read"), ('"if"', "if"), ('"switch"', "switch"), ('"fsm"', "fsm"), ('"part"', "part"), ('"array"', "array"),
+    for key, tag in (('_multi"', "multi_domain_inserter"), ('"inner"', "nested_fsm"), ('"abort"', "aborted_elif_branch"), ('"refused"', "refused_statement"), ('"shadow"', "shadowing_domain"), ('"clk"', "clock_signal_read"), ('"rst"', "reset_signal_read"), ('"if"', "if"), ('"switch"', "switch"), ('"fsm"', "fsm"), ('"part"', "part"), ('"array"', "array"),
                      ('"cat"', "cat"), ('"as_signed"', "as_signed"), ('"matches"', "matches"), ('"reset"', "reset_inserter"),
                      ('"enable"', "enable_inserter"), ('"rename"', "domain_renamer"), ('"print"', "print"),
                      ('"assert"', "assert"), ('"-', "dontcare_pattern")):
